@@ -392,6 +392,25 @@ class Tree:
                 return b
         raise RuntimeError("no nonce found")
 
+    def refs_by_key(self, head):
+        """for every key, the unspent references paying it at `head`, in the order in which they were created along
+        head's chain (the order a wallet scans them in) — the harness's own bookkeeping"""
+        ch, h = [], head
+        while h != b"\x00" * 32:
+            b = self.cs.block_by_hash[h]
+            ch.append(b)
+            h = b.previous_block_hash
+        out = {}
+        for b in reversed(ch):
+            for n, tx in enumerate(b.transactions):
+                if n > 0:
+                    spent = {i.output_reference for i in tx.inputs}
+                    for k in out:
+                        out[k] = [r for r in out[k] if r not in spent]
+                for k, o in enumerate(tx.outputs):
+                    out.setdefault(o.public_key.public_key, []).append(OutputReference(tx.hash(), k))
+        return out
+
     def adopt(self, b):
         """a valid block produced elsewhere (the node's miner) joins the tree"""
         self.cs = self.cs.add_block_no_validation(b)
